@@ -202,7 +202,14 @@ InDomain(o) ==
       [] o.k = "nav" -> /\ FromDomain(o.from) /\ (o.chain = <<>> \/ OpsDomain(o.chain[Len(o.chain)][1], o.ops))
                         /\ ChainUnambiguous(o.from.c, o.chain)
       [] o.k = "card" -> FromDomain(o.from)
+      \* the command-line tool checks the model it loads from the persisted text
+      [] o.k = "cli" -> Persistable
       [] OTHER -> TRUE
+
+\* xtuml.consistency_check.main: every -r number (all associations when none is given) and every -k class (all classes
+\* when none is given) contributes its violations; the process exits non-zero exactly when the sum is positive
+CliCount(o) == (IF o.rels = <<>> THEN AssocViolations("") ELSE SumSeq([j \in DOMAIN o.rels |-> AssocViolations(o.rels[j])]))
+             + (IF o.kinds = <<>> THEN IdViolations("") ELSE SumSeq([j \in DOMAIN o.kinds |-> IdViolations(o.kinds[j])]))
 
 Eval(o) ==
     CASE o.k = "sel" -> IF o.form = "many" THEN RSeq(Select(o.c, o.ops)) ELSE FirstOf(RSeq(Select(o.c, o.ops)))
@@ -214,5 +221,6 @@ Eval(o) ==
       [] o.k = "chk_id" -> RInt(IdViolations(o.c))
       [] o.k = "consistent" -> RBool(Consistent)
       [] o.k = "chk_sub" -> RInt(SubtypeViolations(o.c, o.rel))
+      [] o.k = "cli" -> Res("", <<>>, CliCount(o), CliCount(o) > 0, "")
       [] o.k = "sort" -> SortReflexive(o.c, IF o.all THEN pool[o.c] ELSE o.sub, o.rel, o.ph)
 =============================================================================
